@@ -4,6 +4,8 @@ import (
 	"fmt"
 	"regexp"
 	"strings"
+	"unicode"
+	"unicode/utf8"
 
 	"github.com/zerx-lab/wordZero/pkg/document"
 	"github.com/zerx-lab/wordZero/pkg/markdown"
@@ -31,8 +33,11 @@ var c20Meta = []string{"*", "_", "`", "|", "#", ">", "[x]", "~~", "1.", "a*b*c",
 func c20Boundary(r *rng.R, prev, next string, keep int, seen *int) int {
 	bk := r.Intn(12)
 	if bk >= 10 {
-		alnum := func(b byte) bool { return b >= '0' && b <= '9' || b >= 'a' && b <= 'z' || b >= 'A' && b <= 'Z' }
-		if prev != "" && next != "" && alnum(prev[len(prev)-1]) && alnum(next[0]) {
+		// letters and digits of any script (a word may end in é, 五 or я as well as in x)
+		lastR, _ := utf8.DecodeLastRuneInString(prev)
+		firstR, _ := utf8.DecodeRuneInString(next)
+		word := func(c rune) bool { return unicode.IsLetter(c) || unicode.IsDigit(c) }
+		if prev != "" && next != "" && word(lastR) && word(firstR) {
 			*seen++
 			if keep < 0 || keep == *seen { // keep: -1 all touching boundaries, 0 none, k only the k-th (diagnosis variants)
 				return 10
@@ -64,6 +69,11 @@ func c20Doc(r *rng.R, allowMeta bool, keepTight int, boundaries map[string]int, 
 			default:
 				t.text = t.tok + m + "z"
 			}
+		}
+		if r.Chance(1, 8) {
+			// a word that begins or ends in a letter outside ASCII
+			t.text = []string{"é", "я", "五", "ß"}[r.Intn(4)] + t.text + []string{"é", "я", "五", ""}[r.Intn(4)]
+			t.wide = true
 		}
 		if r.Chance(1, 6) {
 			// words in a script that is written without blanks between words, separated by blanks all the same (name lists,
@@ -507,13 +517,18 @@ func c20Run(c *core.Ctx, keepTight int) (*core.Result, []string) {
 	for k, v := range bounds {
 		res.Count("run-boundary:"+k, int64(v))
 	}
+	// every eleventh case exports with the default options as they are, after the process has asked for the library's other
+	// option presets: what DefaultExportOptions() hands out does not depend on earlier calls
+	primed := c.Case%11 == 5
+	if primed {
+		_ = markdown.HighQualityExportOptions()
+		res.Count("exports_with_untouched_defaults_after_other_presets", 1)
+	}
 	opts := markdown.DefaultExportOptions()
-	opts.UseGFMTables = r.Chance(3, 4)
-	opts.UseSetext = r.Bool()
-	opts.BulletListMarker = []string{"-", "*", "+"}[r.Intn(3)]
-	opts.EmphasisMarker = []string{"*", "_"}[r.Intn(2)]
-	opts.WrapLongLines = r.Chance(1, 3)
-	opts.MaxLineLength = []int{10, 20, 40, 80}[r.Intn(4)]
+	gfm, setext, bullet, em, wrap, width := r.Chance(3, 4), r.Bool(), []string{"-", "*", "+"}[r.Intn(3)], []string{"*", "_"}[r.Intn(2)], r.Chance(1, 3), []int{10, 20, 40, 80}[r.Intn(4)]
+	if !primed {
+		opts.UseGFMTables, opts.UseSetext, opts.BulletListMarker, opts.EmphasisMarker, opts.WrapLongLines, opts.MaxLineLength = gfm, setext, bullet, em, wrap, width
+	}
 	optNote := fmt.Sprintf("options: gfmTables=%v setext=%v bullet=%q em=%q wrap=%v/%d ; blocks=%v", opts.UseGFMTables, opts.UseSetext, opts.BulletListMarker, opts.EmphasisMarker, opts.WrapLongLines, opts.MaxLineLength, blocks)
 	cls := "plain-text"
 	if allowMeta {
@@ -559,7 +574,7 @@ func c20Run(c *core.Ctx, keepTight int) (*core.Result, []string) {
 		}
 	}
 	// 2. formatting markers around each formatted run
-	em := opts.EmphasisMarker
+	em = opts.EmphasisMarker
 	for _, t := range toks {
 		if t.meta || t.wide || t.tight || t.block != "para" {
 			continue
